@@ -1,0 +1,334 @@
+//go:build verif
+
+package main
+
+// C31 driver, call sites: `sites mt=<0|1> wait=<ms> H=<op> C=<op>` runs two *operations of the server* through their
+// real call sites on a fresh Server and observes whether the second one (the contender C) gets inside its critical
+// section while the first one (the holder H) is parked inside its own.
+//
+//	op = q:<repo>        the queue worker (Server.processQueue) indexes repository <repo>
+//	     f:<repo>        a forced re-index (Server.forceIndex) of repository <repo>
+//	     d:<tenant>:<k>  data deletion (Server.DeleteAllData) for <tenant>, parked at its k-th look at the request's tenant
+//	                     (1 = on entry, 2 = explodeTenantCompoundShards, 3 = purge of the index dir, 4 = purge of .trash)
+//
+// Gates need no source change: every index job that got past the mutex reports to Sourcegraph (UpdateIndexStatus of a
+// fake client) before it leaves its critical section, and every pass of the data deletion reads the tenant from the
+// request context (a context whose Value parks). Answer:
+//
+//	H=<entered 0|1> Cpause=<entered while H was parked 0|1> Clater=<entered after H was released 0|1> Cret=<skipped|ran|ok|err|none>
+//	Hret=<…> touches=<functions from which the deletion looked at the context> left=<len(running)> free=<both locks free>
+
+import (
+	"context"
+	"fmt"
+	"io"
+	"os"
+	"path/filepath"
+	"runtime"
+	"strconv"
+	"strings"
+	"sync"
+	"time"
+
+	sglog "github.com/sourcegraph/log"
+
+	"github.com/sourcegraph/zoekt"
+	indexserverv1 "github.com/sourcegraph/zoekt/cmd/zoekt-sourcegraph-indexserver/grpc/protos/zoekt/indexserver/v1"
+	"github.com/sourcegraph/zoekt/internal/tenant"
+)
+
+var (
+	verifSiteTmpOnce sync.Once
+	verifSiteTmp     string
+)
+
+type verifSiteOp struct {
+	who     string // H or C
+	kind    byte   // q f d
+	id      int    // repository or tenant
+	pauseAt int
+
+	mu      sync.Mutex
+	entered bool
+	touches []string
+	ret     string
+	reached chan struct{} // closed when the operation is parked at its gate
+	release chan struct{} // closed to let it go on
+	done    chan struct{} // closed when the call returned (f, d) or the job left its critical section (q)
+	once    sync.Once
+}
+
+func newVerifSiteOp(who, spec string) (*verifSiteOp, error) {
+	p := strings.Split(spec, ":")
+	op := &verifSiteOp{who: who, ret: "none", reached: make(chan struct{}), release: make(chan struct{}), done: make(chan struct{})}
+	if len(p) < 2 || len(p[0]) != 1 {
+		return nil, fmt.Errorf("bad op %q", spec)
+	}
+	op.kind = p[0][0]
+	var err error
+	if op.id, err = strconv.Atoi(p[1]); err != nil {
+		return nil, err
+	}
+	if op.kind == 'd' {
+		if len(p) != 3 {
+			return nil, fmt.Errorf("bad op %q", spec)
+		}
+		if op.pauseAt, err = strconv.Atoi(p[2]); err != nil {
+			return nil, err
+		}
+	}
+	return op, nil
+}
+
+// gate parks the operation until it is released (first time only).
+func (op *verifSiteOp) gate() {
+	first := false
+	op.once.Do(func() { first = true })
+	if !first {
+		return
+	}
+	op.mu.Lock()
+	op.entered = true
+	op.mu.Unlock()
+	close(op.reached)
+	<-op.release
+}
+
+type verifSiteSG struct {
+	mu  sync.Mutex
+	ops []*verifSiteOp
+}
+
+func verifSiteOpts(id int) IndexOptions {
+	return IndexOptions{
+		RepoID: uint32(id), Name: fmt.Sprintf("github.com/verif/repo%d", id), TenantID: 1 + id%2,
+		CloneURL: "http://127.0.0.1:1/verif/repo",
+		Branches: []zoekt.RepositoryBranch{{Name: "HEAD", Version: "deadbeefdeadbeefdeadbeefdeadbeefdeadbeef"}},
+	}
+}
+
+func (f *verifSiteSG) List(context.Context, []uint32) (*SourcegraphListResult, error) {
+	return &SourcegraphListResult{}, nil
+}
+
+func (f *verifSiteSG) ForceIterateIndexOptions(onSuccess func(IndexOptions), _ func(uint32, error), repos ...uint32) {
+	for _, id := range repos {
+		onSuccess(verifSiteOpts(int(id)))
+	}
+}
+
+// UpdateIndexStatus is called by Server.index from inside the critical section of the index job.
+func (f *verifSiteSG) UpdateIndexStatus(st []indexStatus) error {
+	if len(st) == 0 {
+		return nil
+	}
+	id := int(st[0].RepoID)
+	f.mu.Lock()
+	var op *verifSiteOp
+	for _, o := range f.ops { // the holder is started first: it is the first to get here
+		o.mu.Lock()
+		e := o.entered
+		o.mu.Unlock()
+		if (o.kind == 'q' || o.kind == 'f') && o.id == id && !e {
+			op = o
+			break
+		}
+	}
+	f.mu.Unlock()
+	if op != nil {
+		op.gate()
+		if op.kind == 'q' {
+			op.mu.Lock()
+			op.ret = "ran"
+			op.mu.Unlock()
+			close(op.done)
+		}
+	}
+	return nil
+}
+
+type verifSiteCtx struct {
+	context.Context
+	op *verifSiteOp
+}
+
+func (c *verifSiteCtx) Value(key any) any {
+	v := c.Context.Value(key)
+	if v == nil {
+		return v
+	}
+	// which function of this package is looking at the request's tenant?
+	pcs := make([]uintptr, 16)
+	n := runtime.Callers(2, pcs)
+	frames := runtime.CallersFrames(pcs[:n])
+	fn := "?"
+	for {
+		fr, more := frames.Next()
+		if strings.HasPrefix(fr.Function, "main.") {
+			fn = strings.TrimPrefix(fr.Function, "main.")
+			break
+		}
+		if !more {
+			break
+		}
+	}
+	c.op.mu.Lock()
+	c.op.touches = append(c.op.touches, fn)
+	k := len(c.op.touches)
+	c.op.mu.Unlock()
+	if k == c.op.pauseAt {
+		c.op.gate()
+	}
+	return v
+}
+
+func verifC31Sites(args []string) string {
+	mt, wait := "0", 300
+	var specs [2]string
+	for _, a := range args {
+		switch {
+		case strings.HasPrefix(a, "mt="):
+			mt = a[3:]
+		case strings.HasPrefix(a, "wait="):
+			wait, _ = strconv.Atoi(a[5:])
+		case strings.HasPrefix(a, "H="):
+			specs[0] = a[2:]
+		case strings.HasPrefix(a, "C="):
+			specs[1] = a[2:]
+		}
+	}
+	if mt == "1" {
+		os.Setenv("WORKSPACES_API_URL", "http://workspaces.verif.example")
+	} else {
+		os.Unsetenv("WORKSPACES_API_URL")
+	}
+	H, err := newVerifSiteOp("H", specs[0])
+	if err != nil {
+		return "ERR " + err.Error()
+	}
+	C, err := newVerifSiteOp("C", specs[1])
+	if err != nil {
+		return "ERR " + err.Error()
+	}
+	verifSiteTmpOnce.Do(func() {
+		verifSiteTmp = os.TempDir()
+		infoLog.SetOutput(io.Discard)
+		errorLog.SetOutput(io.Discard)
+	})
+	dir, err := os.MkdirTemp(verifSiteTmp, "verif-c31-sites")
+	if err != nil {
+		return "ERR " + err.Error()
+	}
+	defer os.RemoveAll(dir)
+	os.MkdirAll(filepath.Join(dir, ".trash"), 0o755)
+	os.Setenv("TMPDIR", dir) // the jobs' scratch git directories stay inside
+	sg := &verifSiteSG{ops: []*verifSiteOp{H, C}}
+	s := &Server{Sourcegraph: sg, IndexDir: dir, IndexConcurrency: 1, logger: sglog.NoOp()}
+	s.queue = NewQueue(0, 0, sglog.NoOp())
+
+	start := func(op *verifSiteOp) {
+		switch op.kind {
+		case 'q':
+			s.queue.AddOrUpdate(verifSiteOpts(op.id))
+			go s.processQueue() // never returns; it idles on the empty queue afterwards
+		case 'f':
+			go func() {
+				msg, _ := s.forceIndex(context.Background(), uint32(op.id))
+				op.mu.Lock()
+				switch {
+				case strings.Contains(msg, "already running"):
+					op.ret = "skipped"
+				default:
+					op.ret = "ran"
+				}
+				op.mu.Unlock()
+				close(op.done)
+			}()
+		case 'd':
+			go func() {
+				base, err := tenant.VerifWithTenant(context.Background(), op.id)
+				ret := "ok"
+				if err != nil {
+					ret = "err"
+				} else if _, err := s.DeleteAllData(&verifSiteCtx{Context: base, op: op}, &indexserverv1.DeleteAllDataRequest{}); err != nil {
+					ret = "err"
+				}
+				op.mu.Lock()
+				op.ret = ret
+				op.mu.Unlock()
+				close(op.done)
+			}()
+		}
+	}
+	within := func(ch chan struct{}, d time.Duration) bool {
+		select {
+		case <-ch:
+			return true
+		case <-time.After(d):
+			return false
+		}
+	}
+	b := func(x bool) int {
+		if x {
+			return 1
+		}
+		return 0
+	}
+
+	start(H)
+	hEntered := within(H.reached, 10*time.Second)
+	start(C)
+	// does the contender get inside (or return) while the holder is parked?
+	cPause := false
+	select {
+	case <-C.reached:
+		cPause = true
+	case <-C.done:
+	case <-time.After(time.Duration(wait) * time.Millisecond):
+	}
+	close(H.release)
+	hDone := within(H.done, 2*time.Second)
+	// after the holder is gone the contender either runs (it was blocked, or it is the queue worker's dropped job: never) or has returned
+	cLater := false
+	if !cPause {
+		select {
+		case <-C.reached:
+			cLater = true
+		case <-C.done:
+		case <-time.After(time.Duration(wait) * time.Millisecond):
+		}
+	}
+	close(C.release)
+	if C.kind != 'q' || cPause || cLater {
+		within(C.done, 10*time.Second)
+	}
+	if !hDone {
+		hDone = within(H.done, 10*time.Second) // the holder needed the contender out of the way
+	}
+	// quiescence: the queue worker signals from inside its job; give it a moment to leave
+	left, free := -1, false
+	for i := 0; i < 200; i++ {
+		if s.muIndexDir.indexMu.TryLock() {
+			s.muIndexDir.runningMu.Lock()
+			left = len(s.muIndexDir.running)
+			s.muIndexDir.runningMu.Unlock()
+			s.muIndexDir.indexMu.Unlock()
+			free = true
+			if left == 0 {
+				break
+			}
+		}
+		time.Sleep(10 * time.Millisecond)
+	}
+	H.mu.Lock()
+	C.mu.Lock()
+	defer H.mu.Unlock()
+	defer C.mu.Unlock()
+	touches := append(append([]string{}, H.touches...), C.touches...)
+	ts := "-"
+	if len(touches) > 0 {
+		ts = strings.Join(touches, ",")
+	}
+	return fmt.Sprintf("H=%d Hdone=%d Cpause=%d Clater=%d Cret=%s Hret=%s touches=%s left=%d free=%d",
+		b(hEntered), b(hDone), b(cPause), b(cLater), C.ret, H.ret, ts, left, b(free))
+}
